@@ -21,6 +21,8 @@ use x86_64::structures::idt::{InterruptDescriptorTable, InterruptStackFrame, Int
 #[repr(C)]
 pub struct Rec {
     pub calls: u64,
+    /// which of the two general handlers ran (0: `handler`, 1: `handler_b`)
+    pub which: u8,
     pub index: u8,
     pub has_err: bool,
     pub err: u64,
@@ -28,7 +30,7 @@ pub struct Rec {
     pub frame: [u64; 5],
 }
 
-static mut REC: Rec = Rec { calls: 0, index: 0, has_err: false, err: 0, frame: [0; 5] };
+static mut REC: Rec = Rec { calls: 0, which: 0, index: 0, has_err: false, err: 0, frame: [0; 5] };
 /// set by the deliverer for the vectors whose stubs must not be returned into (8, 18)
 static mut ESCAPE: bool = false;
 
@@ -39,11 +41,11 @@ pub fn rec_get() -> Rec {
     unsafe { core::ptr::read_volatile(&raw const REC) }
 }
 
-/// The general handler installed by every form below.
-pub fn handler(frame: InterruptStackFrame, index: u8, error_code: Option<u64>) {
+fn record(which: u8, frame: InterruptStackFrame, index: u8, error_code: Option<u64>) {
     unsafe {
         let mut r = core::ptr::read_volatile(&raw const REC);
         r.calls += 1;
+        r.which = which;
         r.index = index;
         r.has_err = error_code.is_some();
         r.err = error_code.unwrap_or(0);
@@ -62,27 +64,18 @@ pub fn handler(frame: InterruptStackFrame, index: u8, error_code: Option<u64>) {
     }
 }
 
-/// `set_general_handler!(idt, handler)` — the whole-table form.
-pub fn install_all(idt: &mut InterruptDescriptorTable) {
-    set_general_handler!(idt, handler);
+/// The two general handlers the forms below install (a kernel may well use one general handler
+/// for exceptions and another for device interrupts).
+pub fn handler(frame: InterruptStackFrame, index: u8, error_code: Option<u64>) {
+    record(0, frame, index, error_code)
+}
+pub fn handler_b(frame: InterruptStackFrame, index: u8, error_code: Option<u64>) {
+    record(1, frame, index, error_code)
 }
 
 /// The literals for which the single-index form `set_general_handler!(idt, handler, N)` is
 /// pre-instantiated (the macro needs a literal there).
 pub const LITERALS: [u8; 8] = [0, 8, 9, 14, 15, 18, 32, 255];
-
-pub fn install_literal(idt: &mut InterruptDescriptorTable, which: usize) {
-    match which {
-        0 => set_general_handler!(idt, handler, 0),
-        1 => set_general_handler!(idt, handler, 8),
-        2 => set_general_handler!(idt, handler, 9),
-        3 => set_general_handler!(idt, handler, 14),
-        4 => set_general_handler!(idt, handler, 15),
-        5 => set_general_handler!(idt, handler, 18),
-        6 => set_general_handler!(idt, handler, 32),
-        _ => set_general_handler!(idt, handler, 255),
-    }
-}
 
 fn bound(kind: u8, v: u8) -> Bound<u8> {
     match kind {
@@ -92,19 +85,52 @@ fn bound(kind: u8, v: u8) -> Bound<u8> {
     }
 }
 
-/// The range form (the macro takes any runtime `impl RangeBounds<u8>` expression).
-/// form: 0 `lo..hi`, 1 `lo..=hi`, 2 `lo..`, 3 `..hi`, 4 `..=hi`, 5 `..`, 6 `(Bound, Bound)` with
-/// bound kinds sk/ek (0 included, 1 excluded, 2 unbounded).
-pub fn install_range(idt: &mut InterruptDescriptorTable, form: u8, lo: u8, hi: u8, sk: u8, ek: u8) {
-    match form {
-        0 => set_general_handler!(idt, handler, lo..hi),
-        1 => set_general_handler!(idt, handler, lo..=hi),
-        2 => set_general_handler!(idt, handler, lo..),
-        3 => set_general_handler!(idt, handler, ..hi),
-        4 => set_general_handler!(idt, handler, ..=hi),
-        5 => set_general_handler!(idt, handler, ..),
-        _ => set_general_handler!(idt, handler, (bound(sk, lo), bound(ek, hi))),
-    }
+macro_rules! forms {
+    ($all:ident, $lit:ident, $range:ident, $h:ident) => {
+        /// `set_general_handler!(idt, handler)` — the whole-table form.
+        fn $all(idt: &mut InterruptDescriptorTable) {
+            set_general_handler!(idt, $h);
+        }
+        fn $lit(idt: &mut InterruptDescriptorTable, which: usize) {
+            match which {
+                0 => set_general_handler!(idt, $h, 0),
+                1 => set_general_handler!(idt, $h, 8),
+                2 => set_general_handler!(idt, $h, 9),
+                3 => set_general_handler!(idt, $h, 14),
+                4 => set_general_handler!(idt, $h, 15),
+                5 => set_general_handler!(idt, $h, 18),
+                6 => set_general_handler!(idt, $h, 32),
+                _ => set_general_handler!(idt, $h, 255),
+            }
+        }
+        /// The range form (the macro takes any runtime `impl RangeBounds<u8>` expression).
+        /// form: 0 `lo..hi`, 1 `lo..=hi`, 2 `lo..`, 3 `..hi`, 4 `..=hi`, 5 `..`, 6 `(Bound, Bound)`
+        /// with bound kinds sk/ek (0 included, 1 excluded, 2 unbounded).
+        fn $range(idt: &mut InterruptDescriptorTable, form: u8, lo: u8, hi: u8, sk: u8, ek: u8) {
+            match form {
+                0 => set_general_handler!(idt, $h, lo..hi),
+                1 => set_general_handler!(idt, $h, lo..=hi),
+                2 => set_general_handler!(idt, $h, lo..),
+                3 => set_general_handler!(idt, $h, ..hi),
+                4 => set_general_handler!(idt, $h, ..=hi),
+                5 => set_general_handler!(idt, $h, ..),
+                _ => set_general_handler!(idt, $h, (bound(sk, lo), bound(ek, hi))),
+            }
+        }
+    };
+}
+forms!(all_a, lit_a, range_a, handler);
+forms!(all_b, lit_b, range_b, handler_b);
+
+/// `h` selects the general handler (0: `handler`, otherwise `handler_b`).
+pub fn install_all(idt: &mut InterruptDescriptorTable, h: u8) {
+    if h == 0 { all_a(idt) } else { all_b(idt) }
+}
+pub fn install_literal(idt: &mut InterruptDescriptorTable, which: usize, h: u8) {
+    if h == 0 { lit_a(idt, which) } else { lit_b(idt, which) }
+}
+pub fn install_range(idt: &mut InterruptDescriptorTable, form: u8, lo: u8, hi: u8, sk: u8, ek: u8, h: u8) {
+    if h == 0 { range_a(idt, form, lo, hi, sk, ek) } else { range_b(idt, form, lo, hi, sk, ek) }
 }
 
 // ---- the CPU's part of interrupt delivery -------------------------------------------------------
